@@ -192,9 +192,11 @@ def flow_dataflow(ctx, repo, c, sv, ld):
     configuration, the stored arrays are installed in it, and that object is returned."""
     def has(t, pred):
         return any(pred(x) for x in T.subterms(t))
-    ev = Evaluator(repo, max_depth=0)
+    # private helpers of the flow classes are part of save / load (inlined); everything else stays a call
+    helpers = lambda f: f.cls is not None and f.cls in c.mro() and f.name.startswith("_") and not f.name.startswith("__")  # noqa: E731
+    ev = Evaluator(repo, max_depth=1, inline=helpers)
     ev.run(sv, c)
-    mine = [e for e in ev.events if e.func is sv]
+    mine = [e for e in ev.events if e.func is sv or (e.func.cls is not None and helpers(e.func))]
     dts = [e for e in mine if e.callee == "method:save" and len(e.args) >= 3 and e.args[2] == T.K("data_transform")]
     ok1 = len(dts) == 1 and dts[0].args[0][0] == "f" and dts[0].args[0][1] == "method:pop" and dts[0].args[0][2][1] == T.K("data_transform") \
         and [(cc, pp) for cc, pp in dts[0].conds] == [(("is", dts[0].args[0], T.NONE), False)]
@@ -215,16 +217,17 @@ def flow_dataflow(ctx, repo, c, sv, ld):
         ctx.decide(e.args[1] == ("ref", "equinox.is_array"), "C13.flow", f"{c.ident}", loc_of(sv, e.node), "the saved leaves are all arrays of the flow (filter is_array)",
                    f"the flow's arrays are selected for saving with {T.show(e.args[1])[:60]}: arrays it leaves out (e.g. integer permutations between layers) are not saved "
                    "and come from a freshly built template after load", disc=f"save|filter{i_}")
-    ev2 = Evaluator(repo, max_depth=0)
+    ev2 = Evaluator(repo, max_depth=1, inline=helpers)
     ret = T.strip_raise(ev2.run(ld, c))
-    mine = [e for e in ev2.events if e.func is ld]
+    mine = [e for e in ev2.events if e.func is ld or (e.func.cls is not None and helpers(e.func))]
     grp = None
     lds = [e for e in mine if e.callee.endswith("BaseTransform.load") and len(e.args) >= 2 and e.args[-1] == T.K("data_transform") or
            (e.callee.endswith("BaseTransform.load") and T.K("data_transform") in e.args)]
     sets = [e for e in mine if e.callee == "setitem" and e.args[1] == T.K("data_transform")]
     ok2 = False
-    if len(lds) == 1 and len(sets) == 1:
+    if len(lds) == 1:
         grp = [a for a in lds[0].args if a[0] == "s"][0] if any(a[0] == "s" for a in lds[0].args) else None
+    if len(lds) == 1 and len(sets) == 1:
         want = [(("in", T.K("data_transform"), grp), True)]
         ok2 = grp is not None and list(lds[0].conds) == want and list(sets[0].conds) == want and sets[0].args[2] == lds[0].result \
             and has(sets[0].args[0], lambda x: x[0] == "f" and x[1].endswith("load_from_h5_file"))
@@ -503,18 +506,41 @@ def run(ctx):
         wn, rn = names(sv, False), names(ld, True)
         ctx.decide(wn == rn and len(wn) >= 3, "C13.flow", f"{c.ident}", loc_of(ld), f"groups written {sorted(wn)} == groups read",
                    f"save writes groups {sorted(wn)}, load reads {sorted(rn)}", disc="groups")
-        # save() must not consume the instance's own stored configuration
-        cfg_assign = [n for n in walk_no_nested(sv.node) if isinstance(n, ast.Assign) and isinstance(n.targets[0], ast.Name)
-                      and any(isinstance(c_, ast.Call) and isinstance(c_.func, ast.Attribute) and c_.func.attr == "config_dict" for c_ in ast.walk(n.value))]
+        # save() (and the private helpers it calls) must not consume the instance's own stored configuration
+        fns = [sv]
+        for n in walk_no_nested(sv.node):
+            if isinstance(n, ast.Call) and isinstance(n.func, ast.Attribute) and isinstance(n.func.value, ast.Name) and n.func.value.id == sv.params[0] \
+                    and n.func.attr.startswith("_") and not n.func.attr.startswith("__"):
+                h_ = c.resolve(n.func.attr)
+                if h_ is not None and h_ not in fns:
+                    fns.append(h_)
+        MUT = ("pop", "popitem", "clear", "update", "setdefault")
+
+        def _live(e):
+            return any((isinstance(c_, ast.Call) and isinstance(c_.func, ast.Attribute) and c_.func.attr == "config_dict") or (isinstance(c_, ast.Attribute) and c_.attr == "_init_args") for c_ in ast.walk(e))
+
+        def _copied(e):
+            return (isinstance(e, ast.Call) and ((isinstance(e.func, ast.Attribute) and e.func.attr in ("copy", "deepcopy")) or (isinstance(e.func, ast.Name) and e.func.id in ("dict", "deepcopy")))) \
+                or isinstance(e, (ast.Dict, ast.DictComp))
         okm = True
-        for a_ in cfg_assign:
-            name = a_.targets[0].id
-            copied = isinstance(a_.value, ast.Call) and ((isinstance(a_.value.func, ast.Attribute) and a_.value.func.attr in ("copy", "deepcopy")) or (isinstance(a_.value.func, ast.Name) and a_.value.func.id in ("dict", "deepcopy")))
-            mutates = any((isinstance(n, ast.Call) and isinstance(n.func, ast.Attribute) and n.func.attr in ("pop", "popitem", "clear", "update", "setdefault") and isinstance(n.func.value, ast.Name) and n.func.value.id == name)
-                          or (isinstance(n, ast.Subscript) and isinstance(n.ctx, (ast.Store, ast.Del)) and isinstance(n.value, ast.Name) and n.value.id == name)
-                          for n in walk_no_nested(sv.node) if getattr(n, "lineno", 0) > a_.lineno)
-            if mutates and not copied:
-                okm = False
+        cfg_assign = []
+        for fn_ in fns:
+            for a_ in walk_no_nested(fn_.node):
+                if isinstance(a_, ast.Assign) and isinstance(a_.targets[0], ast.Name) and _live(a_.value):
+                    cfg_assign.append(a_)
+                    name = a_.targets[0].id
+                    mutates = any((isinstance(n, ast.Call) and isinstance(n.func, ast.Attribute) and n.func.attr in MUT and isinstance(n.func.value, ast.Name) and n.func.value.id == name)
+                                  or (isinstance(n, ast.Subscript) and isinstance(n.ctx, (ast.Store, ast.Del)) and isinstance(n.value, ast.Name) and n.value.id == name)
+                                  for n in walk_no_nested(fn_.node) if getattr(n, "lineno", 0) > a_.lineno)
+                    if mutates and not _copied(a_.value):
+                        okm = False
+                # the live record mutated without a name in between
+                if isinstance(a_, ast.Call) and isinstance(a_.func, ast.Attribute) and a_.func.attr in MUT and _live(a_.func.value) and not _copied(a_.func.value):
+                    cfg_assign.append(a_)
+                    okm = False
+        if not cfg_assign:
+            ctx.unknown("C13.nomut", f"{c.ident}", loc_of(sv), "no use of config_dict() / _init_args found in save() or the private helpers it calls", disc="nomut")
+            continue
         ctx.decide(okm and bool(cfg_assign), "C13.nomut", f"{c.ident}", loc_of(sv), "save() edits a copy of the configuration, not the instance's own record of its constructor arguments",
                    "save() pops / overwrites entries of the dict returned by config_dict(), which is the instance's own record of its constructor arguments: after one save the "
                    "instance has lost its data transform / dtype entry, so a second save (or a later config_dict()) writes a different object", disc="nomut")
@@ -586,6 +612,9 @@ _T = "src/aspire/transforms.py"
 _TF = "src/aspire/flows/torch/flows.py"
 _A = "src/aspire/aspire.py"
 MUTANTS = [
+    M("torch save pops the data transform out of the live constructor arguments (a second save writes none)", _TF, "config = self.config_dict().copy()\n        data_transform = config.pop(\"data_transform\", None)\n        dtype_value = config.get(\"dtype\")", "config, data_transform = self._split_config()\n        dtype_value = config.get(\"dtype\")", "C13.nomut", within="BaseTorchFlow",
+      more=[("def save(self, h5_file, path=\"flow\"):", "def _split_config(self):\n        config = self.config_dict()\n        data_transform = config.pop(\"data_transform\", None)\n        return dict(config), data_transform\n\n    def save(self, h5_file, path=\"flow\"):")]),
+    M("torch save pops the data transform out of the live constructor arguments, inline", _TF, "config = self.config_dict().copy()\n        data_transform = config.pop(\"data_transform\", None)\n        dtype_value", "config = self.config_dict()\n        data_transform = config.pop(\"data_transform\", None)\n        config = dict(config)\n        dtype_value", "C13.nomut"),
     M("none sentinel renamed on the writer side", _U, "return \"__none__\"", "return \"__null__\"", "C13.sentinel"),
     M("empty dict recursed into", _U, "if isinstance(value, dict) and value:", "if isinstance(value, dict):", "C13.empty"),
     M("flatten separator changed", _U, "full_key = f\"{prefix}.{key}\" if prefix else key", "full_key = f\"{prefix}/{key}\" if prefix else key", "C13.flatten"),
@@ -629,6 +658,8 @@ MUTANTS += [
     M("from_dict stacks columns in mapping order", _S, "x = np.stack([samples[p] for p in parameters], axis=-1)", "x = np.stack(list(samples.values()), axis=-1)", "C13.dictorder"),
 ]
 NEUTRALS = [
+    M("torch save splits the configuration in a helper that copies first", _TF, "config = self.config_dict().copy()\n        data_transform = config.pop(\"data_transform\", None)\n        dtype_value = config.get(\"dtype\")", "config, data_transform = self._split_config()\n        dtype_value = config.get(\"dtype\")", within="BaseTorchFlow",
+      more=[("def save(self, h5_file, path=\"flow\"):", "def _split_config(self):\n        config = dict(self.config_dict())\n        data_transform = config.pop(\"data_transform\", None)\n        return config, data_transform\n\n    def save(self, h5_file, path=\"flow\"):")]),
     M("decoder: 0-d test by ndim", _U, "if value.shape == ():\n            return value.item()", "if value.ndim == 0:\n            return value.item()"),
     M("encoder: None tested first", _U, "if is_jax_array(value) or is_torch_array(value):\n        return to_numpy(value)", "if value is None:\n        return \"__none__\"\n    if is_jax_array(value) or is_torch_array(value):\n        return to_numpy(value)"),
     M("decoder: sentinel tests reordered", _U, "if value == \"__none__\":\n            return None\n        if value == \"__empty_dict__\":\n            return {}", "if value == \"__empty_dict__\":\n            return {}\n        if value == \"__none__\":\n            return None"),
